@@ -438,7 +438,7 @@ def record(case):
             step = "write_" + fmt
             if fmt == "pdb":
                 out = p2.write_pdb(df)
-                c["texts"].append({"src": len(c["frames"]), "model": 0, "lines": text_lines(out)})
+                c["texts"].append({"src": len(c["frames"]), "model": -1, "lines": text_lines(out)})
                 step = "parse_pdb"
                 df = p2.parse_pdb_atoms(out)
             else:
